@@ -46,6 +46,7 @@ class find(ContractBase):
     params = {'job': ATOM}
     returns = NODE
     modifies = []
+    locals = {'avail': Bag(NODE)}
     assumes = [lambda c: [choice_axiom(c.old), J3(c.old)]]
 
     @staticmethod
@@ -53,13 +54,20 @@ class find(ContractBase):
         q = que(c.old)
         w = node_of(q, c['job'])
         return Not(And(q[w], tag(c.old, w) == c['job']))
+    # IndexError only when no queued node has the tag (and then only if the tree has none either)
     raises = {'IndexError': lambda c: find._missing(c)}
 
     def ensures(c):
         q = que(c.old)
-        return {'queued': q[c.result], 'tag': tag(c.old, c.result) == c['job'],
-                'is-choice': c.result == node_of(q, c['job']),
-                'found-iff-present': Not(find._missing(c))}
+        queued = Not(find._missing(c))
+        return {'tag': tag(c.old, c.result) == c['job'],
+                'queued-node-when-queued': Implies(queued, And(q[c.result], c.result == node_of(q, c['job'])))}
+
+    def _inv(c):
+        n = c.sk('n', NODE)
+        return {'tags': Implies(c.loc('avail')[n], tag(c.old, n) == c['job']),
+                'still-empty-of-queued': Implies(c.loc('avail')[n], find._missing(c))}
+    loops = {'for root in dawgie.pl.schedule.ae.at': Loop(inv=_inv)}
 
 
 @contract(W, 'dawgie/pl/schedule.py', 'next_job_batch', props=['C01', 'C03', 'C04'])
